@@ -114,6 +114,8 @@ func shortestOK(out []byte, f float64) bool {
 	return true
 }
 
+var c18Prefixes = [...]string{"", "[1e-7,", "\"e-07\":", "-0.", "1.0", "2e-0", "0.000000", "[1.5e-9,\"e-0\",9"}
+
 func (c *c18ctx) check(f float64) {
 	if math.IsInf(f, 0) || math.IsNaN(f) {
 		return
@@ -128,11 +130,24 @@ func (c *c18ctx) check(f float64) {
 	}
 	w.res.Evaluations++
 	w.res.Transitions++
-	out, err := simdjson.VerifAppendFloat(c.buf[:0], f)
-	c.buf = out[:0]
+	// the number is appended to a buffer that already holds output (as inside MarshalJSON):
+	// prefixes ending in bytes the writer or its exponent clean-up could take for its own
+	pre := c18Prefixes[int(c.count%int64(len(c18Prefixes)))]
+	full, err := simdjson.VerifAppendFloat(append(c.buf[:0], pre...), f)
+	out := full
 	w.res.Validated++
 	bad, fp := "", ""
-	if err != nil {
+	if err == nil {
+		c.buf = full[:0]
+		if len(full) < len(pre) || string(full[:len(pre)]) != pre {
+			bad, fp = fmt.Sprintf("appending to a buffer holding %q gives %q: the bytes in front of the number were changed", pre, full), "prefix-damaged"
+			out = nil
+		} else {
+			out = full[len(pre):]
+		}
+	}
+	if bad != "" {
+	} else if err != nil {
 		bad, fp = "error for a finite value: "+err.Error(), "error"
 	} else {
 		c.jbuf.Reset()
